@@ -152,6 +152,11 @@ func CalcExitPool(
 		weightBreakingFee := GetWeightBreakingFee(finalWeightIn, finalWeightOut, targetWeightIn, targetWeightOut, initialWeightIn, initialWeightOut, distanceDiff, params)
 
 		tokenOutAmount := oracleOutAmount.Mul(sdkmath.LegacyOneDec().Sub(weightBreakingFee)).RoundInt()
+		// an exit must never take the whole reserve of an asset (same rule as the all-asset exit below);
+		// the check above is on the accounted balance, which can exceed what the pool really holds
+		if tokenOutAmount.GTE(poolLiquidity.AmountOf(tokenOutDenom)) {
+			return sdk.Coins{}, sdkmath.LegacyZeroDec(), errors.New("too many shares out")
+		}
 		return sdk.Coins{sdk.NewCoin(tokenOutDenom, tokenOutAmount)}, weightBreakingFee.Neg(), nil
 	}
 
